@@ -82,6 +82,15 @@ Example C04_partial_nonvacuous_closings :
   /\ print true a = S "{[#A]([#B]([#C]([#D])))=[#E]}"
   /\ exists g, read_cgsmiles fo0 (print true a) = Ok g /\ edge_get g 0 4 (S "order") = Some (VInt 2).
 Proof. vm_compute. repeat split. eexists. split; reflexivity. Qed.
+(** non-vacuity with a ring id that is closed and reopened behind the same node (two rings sharing a node):
+    {[#A]1[#B][#C]11[#D][#E]1} denotes the ring bonds A-C and C-E *)
+Example C04_partial_nonvacuous_ring_reuse :
+  let a := [Item (S "A") [(None, MDigit 1)] None None []; nd "B";
+            Item (S "C") [(None, MDigit 1); (None, MDigit 1)] None None []; nd "D"; Item (S "E") [(None, MDigit 1)] None None []] in
+  wf fo0 a = true /\ has_branch_mult a = false /\ print true a = S "{[#A]1[#B][#C]11[#D][#E]1}"
+  /\ exists g, read_cgsmiles fo0 (print true a) = Ok g /\ edge_get g 0 2 (S "order") = Some (VInt 1)
+                /\ edge_get g 2 4 (S "order") = Some (VInt 1) /\ length (edges_data g) = 6%nat.
+Proof. vm_compute. repeat split. eexists. repeat split. Qed.
 Theorem C04_flat_covers_small :
   forallb (fun a => has_branch_mult a || xlins_ok fo_none (linearize_x a)) small_c04 = true.
 Proof. exact C04_xflat_small_list. Qed.
